@@ -415,7 +415,7 @@ CHECKS = {
                 "throw), tsrun_call with host values, order round trips whose object responses are released right after "
                 "tsrun_fulfill_orders and followed by allocation, module runs with import requests and export tables, and contexts "
                 "freed before their values; plus one unit that passes NULL in every pointer position of every exported function. "
-                "Every sequence is non-trivial; sequences are distinct by construction",
+                "A sequence is non-trivial when a collection reclaimed at least one object while it ran (H1 sweep counter; Miri: every sequence); sequences are distinct by construction",
         "exhaustive": "NULL in each pointer parameter of each exported function, one at a time",
         "floor": {"quick": 600, "thorough": 3000},
         "unit_timeout": {"default": 900, "miri": 2400},
